@@ -163,7 +163,7 @@ theorem C44_sound (hash : Labels → Nat) (total : Nat) (e : FExpr) (K : List St
     have := scopeInv_fold e.scopes ⟨none, false⟩ [] rfl
     rw [← foldScopes, ← analyze_fragment e hwf, ha] at this
     simpa using this
-  have hc := compat_of_scoped hash total K by_ e (scoped_of_inv K by_ hname e hinv)
+  have hc := compat_of_scoped hash total K by_ e (scoped_of_inv K by_ hname e hwf hinv)
   have hshard : ∀ i, (S.filter fun s => shardMatches hash total i K by_ s.1) = shardOf (shReal hash total K by_) i S := by
     intro i
     unfold shardOf shReal shardMatches
